@@ -14,3 +14,5 @@ for g in /opt/veriftools/go1.26.8/bin/go /root/go/pkg/mod/golang.org/toolchain@v
 done
 export PKG_CONFIG_PATH="$VERIF_ROOT/build/fluxstub${PKG_CONFIG_PATH:+:$PKG_CONFIG_PATH}"
 export GOCACHE="${GOCACHE:-/root/.cache/go-build}"
+# make -lflux resolvable even if a cached cgo action recorded another stub location
+export CGO_LDFLAGS="-L$VERIF_ROOT/build/fluxstub ${CGO_LDFLAGS:-}"
